@@ -297,8 +297,6 @@ type tgen struct {
 }
 
 func (g *tgen) leaf() *desc {
-	switch g.t != nil && true {
-	}
 	switch rapid.IntRange(0, 17).Draw(g.t, "leaf") {
 	case 0, 1, 2, 3, 4:
 		n := rapid.SampledFrom(uintNames).Draw(g.t, "uname")
@@ -398,7 +396,7 @@ func (g *tgen) strct(depth int, wantList bool) *desc {
 		default:
 			f.d = g.typ(depth + 1)
 		}
-		if !f.tail && !(hasTail && i == nf-2 && false) && rapid.IntRange(0, 11).Draw(g.t, "ignore") == 0 && !(hasTail && false) {
+		if !f.tail && rapid.IntRange(0, 11).Draw(g.t, "ignore") == 0 {
 			f.ignore = true
 		}
 		if i >= optFrom && !f.tail && !f.ignore {
@@ -637,13 +635,24 @@ func editBytes(t *rapid.T, b []byte) ([]byte, string) {
 }
 
 // genInput derives one adversarial byte string from the value v of type d (valid encoding enc).
-func genInput(t *rapid.T, d *desc, v *mval, enc []byte, nHeaders int) input {
+func genInput(t *rapid.T, d *desc, v *mval, enc []byte, info []emInfo) input {
 	w := rapid.IntRange(0, 19).Draw(t, "fclass")
 	switch {
-	case w < 11 && nHeaders > 0:
-		c := &encCtx{faultAt: rapid.IntRange(0, nHeaders-1).Draw(t, "faultat"),
-			f:    fault(rapid.IntRange(1, int(nHeaderFaults)-1).Draw(t, "fault")),
-			huge: rapid.SampledFrom(hugeSizes).Draw(t, "huge")}
+	case w < 11 && len(info) > 0:
+		f := fault(rapid.IntRange(1, int(nHeaderFaults)-1).Draw(t, "fault"))
+		var cand []int
+		for i, e := range info {
+			if e.applicable(f) {
+				cand = append(cand, i)
+			}
+		}
+		at := 0
+		if len(cand) > 0 {
+			at = rapid.SampledFrom(cand).Draw(t, "faultat")
+		} else {
+			at = rapid.IntRange(0, len(info)-1).Draw(t, "faultat")
+		}
+		c := &encCtx{faultAt: at, f: f, huge: rapid.SampledFrom(hugeSizes).Draw(t, "huge")}
 		b := c.enc(d, v)
 		in := input{b: b, f: c.applied, single: true, desc: fmt.Sprintf("%s@%d", faultNames[c.applied], c.faultAt)}
 		if c.applied == fHuge {
@@ -696,16 +705,24 @@ const (
 	allocSlack   = 256 << 10
 )
 
+// measureAlloc is switched off by the exhaustive enumeration and the fuzz target, which measure a whole batch of
+// product calls at once instead (ReadMemStats stops the world: ~15 µs per call).
+var measureAlloc = true
+
 func allocDelta(f func()) uint64 {
+	if !measureAlloc {
+		f()
+		return 0
+	}
+	return allocDeltaAlways(f)
+}
+
+func allocDeltaAlways(f func()) uint64 {
 	var a, b runtime.MemStats
 	runtime.ReadMemStats(&a)
 	f()
 	runtime.ReadMemStats(&b)
 	return b.TotalAlloc - a.TotalAlloc
-}
-
-type tb interface {
-	ev.TB
 }
 
 // kDecode: go-kardia DecodeBytes into a fresh value of rt, guarded and measured.
@@ -732,11 +749,12 @@ type target struct {
 	d    *desc
 	ft   feat
 	geth bool // type is in the subset go-ethereum v1.9.15 supports (no "optional")
+	gethDec bool // ... and its decoder is usable as acceptance oracle (no [1]byte, see feat.byteArr1)
 }
 
 func newTarget(d *desc) *target {
 	ft := d.features()
-	return &target{d: d, ft: ft, geth: !ft.optional}
+	return &target{d: d, ft: ft, geth: !ft.optional, gethDec: !ft.optional && !ft.byteArr1}
 }
 
 // checkDecode runs one byte string against one target type: acceptance and value against the model, the inverse
@@ -777,7 +795,7 @@ func checkDecode(t ev.TB, tg *target, b []byte, what string) bool {
 			ev.Violation(t, "canon.accepted-input-is-not-the-encoding-of-its-value", ct(), "accepted %x but the decoded value encodes to %x (err %v)", b, re, eerr)
 		}
 	}
-	if tg.geth {
+	if tg.gethDec {
 		gp := reflect.New(d.rtype(flG))
 		gerr := grlp.DecodeBytes(b, gp.Interface())
 		if (gerr == nil) != (err == nil) && st != stUnspec {
@@ -803,7 +821,7 @@ func TestTypedValues(t *testing.T) {
 		pk := reflect.New(rtK)
 		build(d, pk.Elem(), mv)
 		arg := pk.Interface()
-		byValue := rapid.Bool().Draw(t, "byvalue")
+		byValue := rapid.Bool().Draw(t, "byvalue") && !(d.k == kIface && mv.ik == 0) // EncodeToBytes(nil) is a usage error
 		if byValue {
 			arg = pk.Elem().Interface()
 		}
@@ -887,7 +905,7 @@ func TestTypedValues(t *testing.T) {
 		}
 		inputs := []input{{b: enc, f: fNone, desc: "valid"}}
 		for i := 1; i < perType; i++ {
-			inputs = append(inputs, genInput(t, d, mv, ref, cnt.count))
+			inputs = append(inputs, genInput(t, d, mv, ref, cnt.info))
 		}
 		_, baseValid := refDecodeWhole(d, ref)
 		for _, in := range inputs {
@@ -898,7 +916,12 @@ func TestTypedValues(t *testing.T) {
 			// self-check of the model: these faults are invalid by construction whenever the base encoding was valid
 			if baseValid == stOK && st == stOK && in.single && !tg.ft.raw && !bytes.Equal(in.b, ref) {
 				switch in.f {
-				case fLongForm, fLongFormZ, fLeadZeroLen, fWrap1, fIntLeadZero, fTrunc, fTrail:
+				case fIntLeadZero:
+					if tg.ft.iface { // an interface{} holding a uint: the zero-prefixed string is a valid string
+						break
+					}
+					fallthrough
+				case fLongForm, fLongFormZ, fLeadZeroLen, fWrap1, fTrunc, fTrail:
 					t.Fatalf("harness: reference decoder accepts a %s input: %s input=%x", faultNames[in.f], ct(), in.b)
 				}
 			}
